@@ -615,6 +615,11 @@ func (u *Unit) applyContract(st *State, ct *Contract, pk, key string, _ any, sig
 		for _, cj := range splitConj(e.Expr) {
 			t, err := u.trySpec(post, cj)
 			if err != nil {
+				if u.contract != nil && u.contract.Sweep {
+					// the sweep only loses an assumption
+					u.warnings = append(u.warnings, fmt.Sprintf("%s: ensures of %s not usable at this call site (%v): not assumed", u.posStr(pos), key, err))
+					continue
+				}
 				u.unsupported(pos, "contract of %s: ensures %s: %v", key, e.Text, err)
 			}
 			st.assume(t)
@@ -1220,7 +1225,7 @@ func (u *Unit) ghostVarKey(home *packages.Package, name string) (string, string)
 // before the k-th call of the callee.
 func (u *Unit) checkCallAsserts(st *State, pk, key string, k int, pos token.Pos) {
 	if os.Getenv("GOVC_DEBUG") != "" {
-		fmt.Fprintf(os.Stderr, "callassert? %s.%s #%d depth=%d contract=%v\n", pk, key, k, u.inlineDepth, u.contract != nil)
+		fmt.Fprintf(os.Stderr, "callassert? %s.%s #%d depth=%d at %s\n", pk, key, k, u.inlineDepth, u.posStr(pos))
 	}
 	if u.contract == nil || u.inlineDepth > 0 {
 		return
